@@ -447,17 +447,18 @@ def scenario_callback_checkpoint(rng, props, fails, stats):
         k = same_state(snap(res), snap(res0)) or (None if res.message == res0.message else "message")
         if k:
             fails.append(("C07", f"a callback returning False altered the run (field {k})"))
-    i = int(rng.integers(0, len(rec.states)))
-    st = rec.states[i][1]
+    # the callback is not invoked in an iteration whose line search failed: states are aligned by their own nit
+    st = rec.states[int(rng.integers(0, len(rec.states)))][1]
+    k = int(st.nit)
     reck = Rec(p)
     kwk = dict(kw0)
-    kwk.update(fun=reck.fun, jac=reck.jac, maxiter=i + 1)
+    kwk.update(fun=reck.fun, jac=reck.jac, maxiter=k)
     resk, _ = run_once(p, kwk, reck)
-    if resk is not None and resk.nit == i + 1:
-        k = same_state(snap(st), snap(resk))
-        if k:
-            fails.append(("C07", f"state after iteration {i + 1} differs from a run with maxiter={i + 1} in field {k} "
-                                 f"({snap(st)[k]!r} vs {snap(resk)[k]!r})"))
+    if resk is not None and resk.nit == k and resk.message.startswith("STOP: TOTAL NO. of ITER"):
+        kf = same_state(snap(st), snap(resk))
+        if kf:
+            fails.append(("C07", f"state with nit={k} differs from a run with maxiter={k} in field {kf} "
+                                 f"({snap(st)[kf]!r} vs {snap(resk)[kf]!r})"))
     return describe(p, kw)
 
 
@@ -645,6 +646,7 @@ def scenario_restart_equiv(rng, props, fails, stats):
               maxfun=10000)
     K = int(rng.integers(2, 9))
     full, exc = run_once(p, dict(kw, maxiter=K, callback=lambda x, s: its.append((x.copy(), copy.deepcopy(s))) or False), None)
+    by_nit = {int(s_.nit): (x_, s_) for x_, s_ in its}     # no callback in an iteration whose line search failed
     stats["runs"] += 1
     if exc is not None or full.nit < 2 or not full.message.startswith("STOP: TOTAL NO. of ITER"):
         return describe(p, kw)
@@ -658,6 +660,19 @@ def scenario_restart_equiv(rng, props, fails, stats):
         return u.shape == v.shape and np.allclose(u, v, rtol=1e-9, atol=1e-9 * max(1.0, float(np.max(np.abs(v), initial=0))))
     if z is None or not (close(z.hess_inv.sk, a.hess_inv.sk) and close(z.hess_inv.yk, a.hess_inv.yk)):
         fails.append(("C06", "a restart that performs no iteration does not return the checkpoint's correction pairs"))
+    def rejected_sig(upto):
+        """known finding KF2: some update at an iteration <= `upto` of the uninterrupted run was rejected by the
+        curvature test (pair count did not grow although the memory was not full, no line-search reset): the result
+        then no longer determines the last stored point"""
+        prev = 0
+        for it_ in sorted(by_nit):
+            if it_ > upto:
+                break
+            rows = int(np.atleast_2d(by_nit[it_][1].hess_inv.sk).shape[0]) if by_nit[it_][1].hess_inv.sk.size else 0
+            if rows <= prev and rows < kw["maxcor"] and rows >= 1:
+                return " [sig:restart-after-a-rejected-curvature-pair]"
+            prev = rows
+        return ""
     mc2 = int(rng.choice([kw["maxcor"], max(1, kw["maxcor"] - 1)]))
     chain = a
     for step in range(int(rng.integers(1, 4))):
@@ -668,20 +683,20 @@ def scenario_restart_equiv(rng, props, fails, stats):
             fails.append(("C06", f"restart raised {type(exc).__name__}: {exc}"))
             return describe(p, kw)
         if mc2 == kw["maxcor"]:
-            ref = its[nxt.nit - 1][0] if nxt.nit - 1 < len(its) else None
+            ref = by_nit[nxt.nit][0] if nxt.nit in by_nit else None
             if ref is not None and nxt.nit == chain.nit + 1:
                 err = np.max(np.abs(nxt.x - ref)) / max(1.0, np.max(np.abs(ref)))
                 if err > 1e-7:
                     for pid in ("C06", "C07"):
                         fails.append((pid, f"iterate {nxt.nit} after a restart at {chain.nit} differs from the "
-                                           f"uninterrupted run by {err:.2e} (relative)"))
+                                           f"uninterrupted run by {err:.2e} (relative){rejected_sig(chain.nit)}"))
                     break
-                st_ref = its[nxt.nit - 1][1]
+                st_ref = by_nit[nxt.nit][1]
                 if (nxt.nfev, nxt.njev) != (st_ref.nfev, st_ref.njev):
                     for pid in ("C06", "C07"):
                         fails.append((pid, f"counters after a restart at {chain.nit} differ from the uninterrupted run at "
                                            f"iteration {nxt.nit}: (nfev, njev) = {(nxt.nfev, nxt.njev)} vs "
-                                           f"{(st_ref.nfev, st_ref.njev)}"))
+                                           f"{(st_ref.nfev, st_ref.njev)}{rejected_sig(chain.nit)}"))
                     break
         else:
             if nxt.hess_inv.sk.shape[0] > mc2:
